@@ -382,6 +382,28 @@ def rule_provenance(ctx: Ctx, typed: Typed):
                         n_stores += 1
                         ctx.ob("R-C17-1", f"{qual}/metadata=?", False, f"metadata built from `{norm(kw.value)[:60]}`", node=kw.value, mod=mod)
     ctx.extra["textual_metadata_stores"] = n_stores
+    # census: a textual field written through a form the loop above does not follow (an alias of <x>.metadata, a tuple target) would escape the
+    # provenance rule altogether -- e.g. `metadata = citation.metadata; metadata.plaintiff, metadata.defendant = table[citation]`
+    for qual, mod, fn in repo.all_funcs():
+        if mod.name not in ("helpers", "find", "models", "resolve", "utils"):
+            continue
+        if qual.endswith(".is_parallel_citation") or qual.endswith(".guess_court"):
+            continue
+        aliases = {nm for s_ in walk_local(fn) if isinstance(s_, (ast.Assign, ast.AnnAssign)) and s_.value is not None
+                   and isinstance(s_.value, ast.Attribute) and s_.value.attr == "metadata" for nm in assigned_names(s_)}
+        for n in walk_local(fn):
+            tgts = n.targets if isinstance(n, ast.Assign) else [n.target] if isinstance(n, (ast.AugAssign, ast.AnnAssign)) else []
+            for t in tgts:
+                direct = isinstance(t, ast.Attribute)
+                for a in ast.walk(t):
+                    if not (isinstance(a, ast.Attribute) and isinstance(a.ctx, ast.Store) and a.attr in TEXTUAL):
+                        continue
+                    via_alias = isinstance(a.value, ast.Name) and a.value.id in aliases
+                    via_md = isinstance(a.value, ast.Attribute) and a.value.attr == "metadata"
+                    if via_alias or (via_md and not (direct and a is t and isinstance(n, ast.Assign))):
+                        ctx.ob("R-C17-1", f"{qual}/metadata.{a.attr}:unfollowed-store", False,
+                               f"`{norm(n)[:70]}` writes a textual metadata field through an alias or a tuple target: the value's origin is not established "
+                               "(it must be text of the match next to this citation, or None)", node=n, mod=mod)
     # call sites passing a text prefix to match_on_tokens / extract_pin_cite
     for qual, mod, fn in repo.all_funcs():
         for n in walk_local(fn):
